@@ -24,6 +24,10 @@ def stmt(lang, k):
         ("register_%d(alpha, 'name_%d', beta + %d)", "register_%d(alpha, 'name_%d', beta + %d);"),
         ("alpha = transform_%d(alpha, scale_%d, %d)", "alpha = transform_%d(alpha, scale_%d, %d);"),
         ("items_%d.append(build_%d(alpha) * %d)", "items_%d.push(build_%d(alpha) * %d);"),
+        # ordinary statements that contain a comment marker of the OTHER language, or one inside a string literal
+        ("alpha = alpha // %d + scale_%d * %d", "alpha = lookup('#tag_%d', scale_%d, %d);"),
+        ("alpha = fetch('http://host_%d/', scale_%d, %d)", "alpha = fetch('http://host_%d/', scale_%d, %d);"),
+        ("alpha = label('#%d', scale_%d, %d)", "alpha = label(\"#%d\", scale_%d, %d);"),
     ]
     py, ts = forms[k % len(forms)]
     return (py if lang == "py" else ts) % (k, k, k)
